@@ -8,6 +8,11 @@ from harness.props.c02 import gen_cfg
 
 TARGETS = ["theories/Props/C09.vo", "theories/Proofs/GenEq_MatcherLoop.vo"]
 GENEQ = {"theories/Proofs/GenEq_MatcherLoop.vo": "MatcherLoop"}
+# units added to the cone after round 2 of the seeded changes (a refused / changed unit must be noticed by this check too)
+TARGETS = TARGETS + ["theories/Proofs/GenEq_Crop.vo"]
+GENEQ = dict(GENEQ, **{"theories/Proofs/GenEq_Crop.vo": "Crop"})
+TARGETS = TARGETS + ["theories/Proofs/GenEq_MetricTable.vo"]
+GENEQ = dict(GENEQ, **{"theories/Proofs/GenEq_MetricTable.vo": "MetricTable"})
 ALLOWED_AXIOMS = []
 RULE = ("metamorphic on evaluate(): x vs (injectively relabelled, re-typed) x. Relabellings: to 1..k, reversed order, random injective maps into "
         "[1, 2^24) with values around 2^8-1, 2^16-1, 2^16+1, 2^24-1 and the dtype maximum; dtypes uint8/16/32/64 (signed for semantic input); "
